@@ -620,6 +620,9 @@ func (handler *Handler) processBinaryDataRow(ctx context.Context, rowData []byte
 	// 1 - packet header
 	// 7 + 2 offset from docs
 	pos = 1 + ((len(fields) + 7 + 2) >> 3)
+	if pos > len(rowData) {
+		return nil, base_mysql.ErrMalformPacket
+	}
 	nullBitmap := rowData[1:pos]
 	output = append(output, rowData[:pos]...)
 
@@ -657,6 +660,14 @@ func (handler *Handler) processBinaryDataRow(ctx context.Context, rowData []byte
 	return output, nil
 }
 
+// fixedWidthValue returns the n bytes of a fixed-width binary value at pos, or an error if the row ends before them
+func fixedWidthValue(rowData []byte, pos, n int) ([]byte, int, error) {
+	if pos < 0 || n < 0 || pos > len(rowData) || n > len(rowData)-pos {
+		return nil, 0, base_mysql.ErrMalformPacket
+	}
+	return rowData[pos : pos+n], n, nil
+}
+
 // extractData retrieve positional data from data row
 func (handler *Handler) extractData(pos int, rowData []byte, field *ColumnDescription) ([]byte, int, error) {
 	// in case of type changing we should process as origin type
@@ -670,22 +681,22 @@ func (handler *Handler) extractData(pos int, rowData []byte, field *ColumnDescri
 		return []byte{}, 0, nil
 
 	case base_mysql.TypeTiny:
-		return rowData[pos : pos+1], 1, nil
+		return fixedWidthValue(rowData, pos, 1)
 
 	case base_mysql.TypeShort, base_mysql.TypeYear:
-		return rowData[pos : pos+2], 2, nil
+		return fixedWidthValue(rowData, pos, 2)
 
 	case base_mysql.TypeInt24, base_mysql.TypeLong:
-		return rowData[pos : pos+4], 4, nil
+		return fixedWidthValue(rowData, pos, 4)
 
 	case base_mysql.TypeLongLong:
-		return rowData[pos : pos+8], 8, nil
+		return fixedWidthValue(rowData, pos, 8)
 
 	case base_mysql.TypeFloat:
-		return rowData[pos : pos+4], 4, nil
+		return fixedWidthValue(rowData, pos, 4)
 
 	case base_mysql.TypeDouble:
-		return rowData[pos : pos+8], 8, nil
+		return fixedWidthValue(rowData, pos, 8)
 
 	case base_mysql.TypeDecimal, base_mysql.TypeNewDecimal, base_mysql.TypeBit, base_mysql.TypeEnum, base_mysql.TypeSet, base_mysql.TypeGeometry, base_mysql.TypeDate, base_mysql.TypeNewDate, base_mysql.TypeTimestamp, base_mysql.TypeDatetime, base_mysql.TypeTime, base_mysql.TypeVarchar, base_mysql.TypeTinyBlob, base_mysql.TypeMediumBlob, base_mysql.TypeLongBlob, base_mysql.TypeBlob, base_mysql.TypeVarString, base_mysql.TypeString:
 		value, n, err := base_mysql.LengthEncodedString(rowData[pos:])
